@@ -21,7 +21,12 @@ ID = "C04text"
 PROPS_FILE = "Props/C04text.v" if os.path.exists(os.path.join(c.COQ_DIR, "Props/C04text.v")) else "Props/C04.v"
 GEN_DEPS: List[str] = []
 ALLOWED_AXIOMS: List[str] = []
-THEOREMS: dict = {}
+THEOREMS: dict = {
+    "C04_cell_text": "full",                    # equality up to white space, every cell
+    "C04_conversion_items": "full",             # the alternative-unit list's items
+    "C04_cell_text_exact_refuted": "refuted",   # character-for-character equality fails when t() re-indents a body
+    "C04_ex_text": "example",
+}
 TRUSTED = ["cell-text clause: oracle on the implementation (expected text from node fields + format_number) and, when "
            "Props/C04text.v is present, a theorem over the string-exact model Model/Html.v and the tokenizer spec"]
 ASSUMPTIONS: List[str] = []
